@@ -795,3 +795,50 @@ pub fn t7w() -> BoxedStrategy<Value> {
         })
         .boxed()
 }
+
+/// T8: a destructor that holds a guard and a Snapshot while it releases bursts of references
+/// (run by a collecting thread), racing with the unlinking of the object it looks at.
+pub fn t8() -> BoxedStrategy<Value> {
+    (
+        0u8..48,
+        (0u8..4, 0u32..1500, 0u32..1200, 0u32..1200),
+        (0u8..4, 0u8..4, 0u8..4, any::<bool>()),
+    )
+        .prop_map(|(align, (mode, n1, n2, n3), (k1, k2, k3, b_pinned_load))| {
+            let (a, b) = (0usize, 1usize);
+            let mut t = TB::new(2);
+            t.new_node(a, "X", None, None, 3, 40);
+            t.pin(a);
+            t.store(a, C::Root(1), Some("X"), 0);
+            t.unpin(a, 0);
+            // Z's destructor: pin, load root1, bursts, use the snapshot, unpin
+            let dact = 1 + 4 * (mode % 4);
+            t.new_node_dact(a, "Z", dact, 10);
+            t.drop_rc(a, "Z");
+            t.run(a);
+            // A collects; Z's destructor runs inside this op; A is parked somewhere in it
+            t.advance(a, 6);
+            t.until_steps(a, n1);
+            // B unlinks X and collects
+            if b_pinned_load {
+                t.pin(b);
+                t.load(b, C::Root(1), 0, "bx");
+                t.unpin(b, 0);
+            }
+            t.swap_null(b, C::Root(1), "X");
+            t.drop_rc(b, "X");
+            t.advance(b, k1);
+            t.run(b);
+            t.until_steps(a, n2);
+            t.advance(b, k2);
+            t.run(b);
+            t.until_steps(a, n3);
+            t.advance(b, k3 + 1);
+            t.run(b);
+            t.until_end(a);
+            t.advance(b, 4);
+            t.run(b);
+            t.finish(align, "T8")
+        })
+        .boxed()
+}
